@@ -19,6 +19,12 @@ CHECKS = {
         "quick": {"runs": 80000, "wall": 75},
         "thorough": {"runs": 3000000, "wall": 1500},
     },
+    "C01": {
+        "level": "exploration",
+        "legs": [("cost", "C01")],
+        "quick": {"runs": 20000, "wall": 80},
+        "thorough": {"runs": 400000, "wall": 1500},
+    },
 }
 
 
@@ -28,6 +34,21 @@ def leg_of(check, i):
 
 
 EVIDENCE_TEXT = {
+    "C01": {
+        "rule": "each run = fit type (xy/indexed/histogram/unbinned, stratified) x built-in cost identifier x data set x model family + a seeded "
+                "script of mutators only (sources simple/matrix, abs/rel, data/model reference, x/y axis, correlations, via the fit or via "
+                "fit.data_container, pre-loaded containers, disable/enable, constraints of all four forms, set/fix/limit, gc, scripted name collisions; "
+                "special orders: model-referenced source first / only, all disabled but one, source after parameters moved). For each of 2-5 probe points a "
+                "FRESH fit replays the script, set_all_parameter_values(p), and cost_function_value is read first and compared with the closed-form "
+                "-2lnL; sibling fresh replays read total_cov_mat / total_error / model first. non-trivial = >=1 probe in the domain and >=4 ops; "
+                "distinct = distinct event-log digests. The ranges 'all data sets x all model functions' are sampled by the generator (property-based "
+                "sampling, not schedule search).",
+        "states_measure": "distinct declared configurations: (fit type, effective cost, per-source (enabled, relative, type, reference, axis), #constraints, fixed set, implicit-no-errors flag)",
+        "assumptions": ["PD, cond<=1e7 totals only; Poisson-type costs only with positive model", "xy Poisson fits use integer x (kafe2 applies the Poisson data check to x as well)",
+                        "numeric x->y slope: reference uses the analytic slope, tolerance = effect of the documented step's discretisation bound (sign patterns per point)",
+                        "histogram quadrature rules (simpson/trapezoid/rectangle): model taken from a sibling fresh replay (accuracy of the rule is C13)",
+                        "custom cost functions are outside 'built-in'"],
+    },
     "C02": {
         "rule": "each run = one container (indexed / xy / histogram / indexed-, xy-, histogram-parametric-model; kinds stratified over run "
                 "index) + seeded op list of add_error / add_matrix_error (cov | cor+err, abs | rel, scalar | vector, corr in {0,.3,.75,1}, axis as "
